@@ -680,3 +680,100 @@ package gogen
 //@ assigns pkg.file.dirty, map(pkg.file.imps)
 //@ loop 0 invariant 0 <= i && i <= n && n == t.Len() && ImpsGrow(pkg) && imp(i > 0, v != nil)
 //@ ensures result != nil && ImpsGrow(pkg)
+
+// ---------------------------------------------------------------------------
+// C04 — constant folding (spec: /verif/specs/c04_const.spec)
+
+//@ func isBasicKind
+//@ prop C04 C05
+//@ readonly
+//@ requires cb != nil && arg != nil && arg.Type != nil && StdType(arg.Type)
+//@ loop 0 invariant argType != nil && StdType(argType) && UBasicInfoR(argType) == UBasicInfoR(arg.Type)
+//@ ensures result == (UBasicInfoR(arg.Type) & kind != 0)
+
+//@ func isNormalInt
+//@ prop C04
+//@ readonly
+//@ requires cb != nil && arg != nil && arg.Type != nil && StdType(arg.Type)
+//@ ensures result == (UBasicInfoR(arg.Type) & 2 != 0)
+
+//@ func isUnsigned
+//@ prop C04
+//@ pure
+//@ requires typ != nil && StdType(typ)
+//@ loop 0 invariant typ != nil && StdType(typ) && UBasicInfoR(typ) == UBasicInfoR(entry(typ))
+//@ ensures result == (UBasicInfoR(typ) & 4 != 0)
+
+//@ func doBinaryOp
+//@ prop C04 C17
+//@ readonly
+//@ requires a != nil && b != nil && IsBinaryTok(tok) && len(ctx) >= 2 && ctx[1] != nil
+//@ requires imp(IsCompareTok(tok), CmpOperandsOK(a, tok, b))
+//@ ensures imp(!IsShiftTok(tok) && !IsCompareTok(tok), result == constant.BinaryOp(a, tok, b))
+//@ ensures imp(IsCompareTok(tok), result == constant.MakeBool(constant.Compare(a, tok, b)))
+//@ ensures imp(IsShiftTok(tok), cKind(constant.ToInt(b)) == 3 && tuple1(constant.Int64Val(constant.ToInt(b))) && result == constant.Shift(constant.ToInt(a), tok, umod(tuple0(constant.Int64Val(constant.ToInt(b))), 18446744073709551616)))
+
+//@ func binaryOp
+//@ prop C04
+//@ readonly
+//@ requires cb != nil && IsBinaryTok(tok) && tok != 26
+//@ requires imp(len(args) == 2 && IsCompareTok(tok) && args[0] != nil && args[1] != nil && args[0].CVal != nil && args[1].CVal != nil, CmpOperandsOK(args[0].CVal, tok, args[1].CVal))
+//@ requires imp(len(args) == 2, args[0] != nil && args[1] != nil && args[0].Type != nil && args[1].Type != nil && StdType(args[0].Type) && StdType(args[1].Type))
+//@ ensures (result != nil) ==> (len(args) == 2 && args[0].CVal != nil && args[1].CVal != nil)
+//@ ensures imp(len(args) == 2 && args[0].CVal != nil && args[1].CVal != nil && tok == token.QUO && IntDivisionR(args[0].Type, args[1].Type), result == constant.BinaryOp(args[0].CVal, token.QUO_ASSIGN, args[1].CVal))
+//@ ensures imp(len(args) == 2 && args[0].CVal != nil && args[1].CVal != nil && tok == token.QUO && !IntDivisionR(args[0].Type, args[1].Type), result == constant.BinaryOp(args[0].CVal, token.QUO, args[1].CVal))
+//@ ensures imp(len(args) == 2 && args[0].CVal != nil && args[1].CVal != nil && tok != token.QUO && !IsShiftTok(tok) && !IsCompareTok(tok), result == constant.BinaryOp(args[0].CVal, tok, args[1].CVal))
+//@ ensures imp(len(args) == 2 && args[0].CVal != nil && args[1].CVal != nil && IsCompareTok(tok), result == constant.MakeBool(constant.Compare(args[0].CVal, tok, args[1].CVal)))
+
+//@ func (*Package).Sizeof
+//@ trusted
+//@ pure
+//@ requires typ != nil
+
+//@ func unaryOp
+//@ prop C04
+//@ readonly
+//@ requires pkg != nil
+//@ requires imp(len(args) == 1, args[0] != nil && imp(args[0].CVal != nil, args[0].Type != nil && StdType(args[0].Type)))
+//@ ensures (result != nil) ==> (len(args) == 1 && args[0].CVal != nil)
+//@ ensures imp(len(args) == 1 && args[0].CVal != nil && UBasicInfoR(args[0].Type) & 4 == 0, result == constant.UnaryOp(tok, args[0].CVal, 0))
+//@ ensures imp(len(args) == 1 && args[0].CVal != nil && UBasicInfoR(args[0].Type) & 4 != 0, result == constant.UnaryOp(tok, args[0].CVal, umod(pkg.Sizeof(args[0].Type) * 8, 18446744073709551616)))
+
+//@ func checkDivisionByZero
+//@ prop C04
+//@ readonly
+//@ requires cb != nil && a != nil && b != nil && imp(a.CVal == nil, a.Type != nil && StdType(a.Type))
+//@ ensures !(CIsZero(b.CVal) && (a.CVal != nil || (UBasicInfoR(a.Type) & 2 != 0)))
+
+//@ func isOrderable
+//@ prop C04
+//@ pure
+//@ requires v != nil
+//@ ensures result == (cKind(v) == 3 || cKind(v) == 4 || cKind(v) == 2)
+
+//@ func minMaxConst
+//@ prop C04 C17
+//@ readonly
+//@ requires len(args) >= 1 && forall(i, 0, len(args), args[i] != nil) && (op == token.LSS || op == token.GTR)
+//@ requires forall(i, 0, len(args), forall(j, 0, len(args), imp(cKind(args[i]) != cKind(args[j]), cKind(args[i]) >= 3 && cKind(args[j]) >= 3)))
+//@ loop 0 invariant result != nil && isOrderable(result) && forall(k, 0, rangeidx + 2, isOrderable(args[k])) && (cKind(result) == cKind(args[0]) || (cKind(result) >= 3 && cKind(args[0]) >= 3))
+//@ loop 0 invariant imp(len(args) == 2 && rangeidx == 0 - 1, result == args[0])
+//@ loop 0 invariant imp(len(args) == 1, result == args[0])
+//@ loop 0 invariant imp(len(args) == 2 && rangeidx == 0, result == ite(constant.Compare(args[1], op, args[0]), args[1], args[0]))
+//@ ensures imp(result != nil, isOrderable(result) && forall(k, 0, len(args), isOrderable(args[k])))
+//@ ensures imp(len(args) == 2 && isOrderable(args[0]) && isOrderable(args[1]), result == ite(constant.Compare(args[1], op, args[0]), args[1], args[0]))
+//@ ensures imp(len(args) == 1, result == ite(isOrderable(args[0]), args[0], nil))
+
+//@ func minConst
+//@ prop C04
+//@ readonly
+//@ requires len(args) >= 1 && forall(i, 0, len(args), args[i] != nil)
+//@ requires forall(i, 0, len(args), forall(j, 0, len(args), imp(cKind(args[i]) != cKind(args[j]), cKind(args[i]) >= 3 && cKind(args[j]) >= 3)))
+//@ ensures imp(len(args) == 2 && isOrderable(args[0]) && isOrderable(args[1]), result == ite(constant.Compare(args[1], token.LSS, args[0]), args[1], args[0]))
+
+//@ func maxConst
+//@ prop C04
+//@ readonly
+//@ requires len(args) >= 1 && forall(i, 0, len(args), args[i] != nil)
+//@ requires forall(i, 0, len(args), forall(j, 0, len(args), imp(cKind(args[i]) != cKind(args[j]), cKind(args[i]) >= 3 && cKind(args[j]) >= 3)))
+//@ ensures imp(len(args) == 2 && isOrderable(args[0]) && isOrderable(args[1]), result == ite(constant.Compare(args[1], token.GTR, args[0]), args[1], args[0]))
